@@ -13,11 +13,12 @@ EXTENDS Interchain, Surface, Json, IOUtils
 
 TraceFile == IF "TRACE" \in DOMAIN IOEnv THEN IOEnv.TRACE ELSE "trace.ndjson"
 Tr == ndJsonDeserialize(TraceFile)
+EX == INSTANCE Exec     \* the generic block formulas (C07 / C08 / C14) are evaluated on the same events
 
 VARIABLES l, tname, g, env, pending, viol, drift
 tvars == <<l, tname, g, env, pending, viol, drift>>
 
-Env0 == [svc |-> <<>>, h |-> 0, bxh |-> "", unordered |-> {}]
+Env0 == [svc |-> <<>>, h |-> 0, bxh |-> "", unordered |-> {}, admins |-> {}]
 Init == l = 0 /\ tname = "" /\ g = GInit /\ env = Env0 /\ pending = FALSE /\ viol = {} /\ drift = {} /\ TLCSet(1, 0)
 
 SvcMap(list) == [s \in {x.svc : x \in ToSet(list)} |-> (CHOOSE x \in ToSet(list) : x.svc = s).st]
@@ -124,6 +125,12 @@ GroupViol(g2, groups) ==
   IN {<<IF g2.grp[gid].state = "BEGIN_ROLLBACK" \/ (obsOf(gid).state = "BEGIN_ROLLBACK") THEN "C06_GroupFiresAt" ELSE "C05_GroupState", [gid |-> gid, expected |-> [state |-> g2.grp[gid].state, kids |-> g2.grp[gid].kids], observed |-> obsOf(gid)]>> : gid \in bad}
      \cup (IF C05_SuccessOnlyIfAll(g2) THEN {} ELSE {<<"C05_SuccessOnlyIfAll", "machine">>})
 
+\* C16: an approved freeze or logout of an appchain makes all its services unusable for interchain
+ChainFreezeViol(e) ==
+  LET down == {c.chain : c \in {x \in ToSet(e.chains) : x.st \in {"frozen", "forbidden"}}}
+  IN {<<"C16_ChainFreezeStopsServices", [svc |-> s.svc, status |-> s.st]>> :
+         s \in {x \in ToSet(e.svc) : x.st \in {"available", "freezing"} /\ x.chainOf \in down}}
+
 BlockStep(e) ==
   LET en == [env EXCEPT !.h = e.h]
       r  == RunTxs(g, en, e.txs)
@@ -136,7 +143,7 @@ BlockStep(e) ==
                 \cup (IF Len(e.txs) > 0 /\ (\A i \in 1..Len(e.txs) : e.txs[i].k = "invoke" /\ e.txs[i].cls = "surface" /\ e.txs[i].role # "govadmin")
                           /\ (CtrViol(g2, e.counters) \cup StatusViol(r.g, g2, e.h, e.status)) # {}
                       THEN {<<"C17_NoForeignDelete", {[c |-> e.txs[i].c, m |-> e.txs[i].m] : i \in 1..Len(e.txs)}>>} ELSE {})
-                \cup DelivViol(en, e.txs, e.counter) \cup GroupViol(g2, e.groups),
+                \cup DelivViol(en, e.txs, e.counter) \cup GroupViol(g2, e.groups) \cup ChainFreezeViol(e),
       d |-> r.d, src |-> srcChainOf]
 
 VARIABLE chainOfId   \* id -> source chain (for timeout metadata)
@@ -147,7 +154,8 @@ Step(e) ==
   /\ tname' = nm
   /\ CASE e.ev = "Init" ->
             /\ g' = GInit /\ pending' = FALSE /\ chainOfId' = <<>>
-            /\ env' = [svc |-> SvcMap(e.svc), h |-> e.h, bxh |-> e.bxh, unordered |-> {e.bxh \o ":" \o u : u \in ToSet(e.unordered)}]
+            /\ env' = [svc |-> SvcMap(e.svc), h |-> e.h, bxh |-> e.bxh, unordered |-> {e.bxh \o ":" \o u : u \in ToSet(e.unordered)},
+                       admins |-> ToSet(e.admins)]
             /\ viol' = viol \cup (IF e.setupEqual THEN {} ELSE {<<nm, l + 1, "C01_SetupDiverged", 0>>})
             /\ drift' = drift
        [] e.ev = "Submit" -> /\ pending' = TRUE /\ UNCHANGED <<g, env, viol, drift, chainOfId>>
@@ -158,7 +166,7 @@ Step(e) ==
                 tv2 == LET r == RunTxs(g, [env EXCEPT !.h = e.h], e.txs) IN TmetaViol(r.g, e.h, e.tmeta, cmap)
             IN /\ g' = b.g /\ pending' = FALSE /\ chainOfId' = cmap
                /\ env' = [env EXCEPT !.svc = SvcMap(e.svc), !.h = e.h]
-               /\ viol' = viol \cup {<<nm, l + 1, x[1], x[2]>> : x \in b.v \cup tv2}
+               /\ viol' = viol \cup {<<nm, l + 1, x[1], x[2]>> : x \in b.v \cup tv2 \cup EX!GenericBlockViol(e, env.admins)}
                /\ drift' = drift \cup {<<nm, l + 1, x>> : x \in b.d}
        [] e.ev \in {"ExecError", "Crashed"} ->
             /\ viol' = viol \cup {<<nm, l + 1, "C08_Alive", IF e.ev = "Crashed" THEN "crashed" ELSE e.cls>>}
